@@ -26,6 +26,9 @@ class Sym:
     def __init__(self, f, expand_params=True):
         self.f = f
         self.memo = {}
+        self.stale = {}
+        self._ms = None
+        self.stale_off = False
         self.stack = set()
         # locals whose address is taken mutably are memory cells, not values: keep them opaque
         self.cells = set()
@@ -38,6 +41,8 @@ class Sym:
     def origin(self, e):
         """for an opaque memory-cell local with a single initialising definition: that definition's value"""
         e = strip(e)
+        if e[0] == "local" and e[1] in self.stale:
+            return self.stale[e[1]]
         if e[0] == "local" and e[1] in self.cells:
             ds = self.f.defs.get(e[1], [])
             if len(ds) == 1:
@@ -69,8 +74,89 @@ class Sym:
                 e = self.call(x, blk)
         finally:
             self.stack.discard(l)
+        if not self.stale_off and self._stale_snapshot(l, ds[0], e):
+            # `let x = m; ... m = ..; use(x)`: x is not the current value of m where it is used - keep it opaque
+            self.stale[l] = e
+            e = ("local", l, f.locals[l]["name"])
         self.memo[l] = e
         return e
+
+    def _stale_snapshot(self, l, d, e):
+        """does the single-assignment local `l` copy a variable that may be re-assigned between that copy and a use of `l`?"""
+        f = self.f
+        ms = set()
+        for x in walk(e):
+            if x[0] == "local" and x[1] != l and len(f.defs.get(x[1], [])) > (0 if 1 <= x[1] <= f.argc else 1):
+                ms.add(x[1])
+        blk, idx, kind, _x = d
+        dpos = (blk, len(f.blocks[blk]["stmts"]) if kind == "call" else idx)
+        us = f.uses.get(l, [])
+        if not us:
+            return False
+        # memory read by the definition and overwritten before a use (`let old = *p; *p = ..; use(old)`)
+        if kind == "rv" and self._mem_stores():
+            reads = set()
+
+            def collect(x, addr):
+                # `addr`: x is only the operand of an address-of (a reference is not a snapshot of the memory it points to)
+                if not isinstance(x, tuple) or not x or not isinstance(x[0], str):
+                    return
+                if x[0] == "ref":
+                    collect(x[1], True)
+                    return
+                if x[0] in ("field", "deref", "index"):
+                    if not addr:
+                        reads.add(canon(strip(x)))
+                    collect(x[1], addr and x[0] != "deref")
+                    if x[0] == "index":
+                        collect(x[2], False)
+                    return
+                for y in x[1:]:
+                    if isinstance(y, tuple):
+                        if y and isinstance(y[0], str):
+                            collect(y, False)
+                        else:
+                            for z in y:
+                                collect(z, False)
+            collect(e, False)
+            for (mpos, pc) in self._mem_stores():
+                if mpos == dpos:
+                    continue
+                if any(pc == r or pc.startswith(r + ".") or pc.startswith(r + "[") or r.startswith(pc + ".") or r.startswith(pc + "[") for r in reads):
+                    if f.pos_reach(dpos, mpos, dpos) and any(u != mpos and f.pos_reach(mpos, u, dpos) for u in us):
+                        return True
+        for m in ms:
+            for (mb, mi, mk, _mx) in f.defs.get(m, []):
+                mpos = (mb, len(f.blocks[mb]["stmts"]) if mk == "call" else mi)
+                if mpos == dpos:
+                    continue
+                if not f.pos_reach(dpos, mpos, dpos):
+                    continue
+                for u in us:
+                    if u != mpos and f.pos_reach(mpos, u, dpos) or u == mpos and False:
+                        return True
+        return False
+
+    def _mem_stores(self):
+        """(position, canonical place) of every store through a projection (memory write) in the body"""
+        if self._ms is None:
+            self._ms = []
+            f = self.f
+            prev = self.stale_off
+            saved = self.memo
+            self.memo = {}
+            self.stale_off = True
+            try:
+                for i, j, s in f.stmts():
+                    if s["s"] == "assign" and s["lhs"]["p"]:
+                        try:
+                            self._ms.append(((i, j), canon(strip(self.place(s["lhs"])))))
+                        except RecursionError:
+                            pass
+            finally:
+                self.stale_off = prev
+                self.memo = saved
+        return self._ms
 
     def call(self, t, blk=None):
         c = callee_of(t)
